@@ -576,7 +576,7 @@ class Fxp():
             val_max = int(np.max(val)*(1 << n_frac))
             val_min = int(np.min(val)*(1 << n_frac))
             n_int = 0
-            while n_int < n_word_max - sign:
+            while True:     # all the integer bits are counted, so that n_frac gives way when the word is capped
                 msb_max = (val_max >> n_int) + (1 if val_max < 0 else 0)
                 msb_min = (val_min >> n_int) + (1 if val_min < 0 else 0)
 
